@@ -149,10 +149,85 @@ def loop_pairs_ok(F, b):
     return True
 
 
+def implied_semantic(chk, F):
+    """I1 / I2 decided by interpreting get_implied_distribution (sa/ivl.py) with the change-point iterator replaced by given
+    sequences of (value, length) pairs: the first result is the longest prefix whose lengths are all <= 128 (the iteration stops at
+    the first longer one, however many follow), the second has one weight per consecutive pair of that prefix, built from 2^-len
+    of the first point and the distance to the second.  Returns False when the interpreter cannot follow the code."""
+    import ivl
+    from ivl import AI, Agg, Opaque, PyIter, Sym
+    b = F.body("utils::implied::get_implied_distribution")
+    pts = [(0, 1), (5, 3), (9, 7), (40, 128), (77, 129), (90, 130), (95, 12)]
+    results = []
+    try:
+        for K in (0, 1, 2, 3, 4, 5, 7):
+            pulled = [0]
+
+            def h_new(it, name, args, fargs, fr, t, K=K, pulled=pulled):
+                class Counting(PyIter):
+                    def step(self_, it_, fr_, t_, d_):
+                        v = PyIter.step(self_, it_, fr_, t_, d_)
+                        pulled[0] += 1
+                        return v
+                return Counting("values", [[Agg("tuple", None, None, None, [AI("u64", a, a), AI("usize", l, l)]) for a, l in pts[:K]], 0])
+            it = ivl.Interp(F, 0, 0, {"utils::find_change::FindChangePoints::<F>::new": h_new})
+            env = {g: g for g in b.get("generics") or []}
+            r = it.call_body(b, [Opaque("the length function")], env, 0)
+            results.append((K, r, pulled[0]))
+    except (ivl.Unsupported, ivl.Undecided, ivl.Panic, KeyError, AttributeError, IndexError, TypeError):
+        return False
+    ok1, why1, ok2, why2 = True, None, True, None
+    for K, r, pulled in results:
+        want = []
+        for a, l in pts[:K]:
+            if l > 128:
+                break
+            want.append((a, l))
+        if not (isinstance(r, Agg) and r.kind == "tuple" and len(r.fields) == 2 and all(isinstance(x, Agg) and x.kind == "array" for x in r.fields)):
+            ok1, why1 = False, "the result for %d change points is %r" % (K, r)
+            continue
+        cp, wv = r.fields
+        got = [(p.fields[0].const(), p.fields[1].const()) if isinstance(p, Agg) and len(p.fields) == 2 and all(isinstance(z, AI) for z in p.fields) else None for p in cp.fields]
+        if got != want:
+            ok1, why1 = False, "from the change points %s it keeps %s (expected the prefix with lengths <= 128: %s)" % (pts[:K], got, want)
+        elif pulled > len(want) + 1:
+            ok1, why1 = False, "it pulls %d change points although the cut-off is reached after %d: the iteration does not stop at the first length above the bound" % (pulled, len(want) + 1)
+        if len(wv.fields) != max(0, len(want) - 1):
+            ok2, why2 = False, "%d weights for %d change points (expected one per consecutive pair)" % (len(wv.fields), len(want))
+            continue
+        for i, wgt in enumerate(wv.fields):
+            def consts(x, out):
+                if isinstance(x, Sym):
+                    for y in x.expr[1:] if isinstance(x.expr, tuple) else ():
+                        consts(y, out)
+                    if isinstance(x.expr, tuple) and x.expr[0] == "powi":
+                        out.append(("exp", x.expr[2].const() if isinstance(x.expr[2], AI) else None))
+                    if isinstance(x.expr, tuple) and x.expr[0] == "float" and isinstance(x.expr[1], AI):
+                        out.append(("num", x.expr[1].const()))
+                return out
+            c = consts(wgt, [])
+            if not (isinstance(wgt, Sym) and ("exp", -want[i][1]) in c and ("num", want[i + 1][0] - want[i][0]) in c and wgt.expr[0] == "Mul"):
+                ok2, why2 = False, "weight %d for the points %s, %s is %r (expected 2^-%d times %d)" % (i, want[i], want[i + 1], wgt, want[i][1], want[i + 1][0] - want[i][0])
+    chk.rule("I1.cutoff", floor=2, doc="get_implied_distribution interpreted on given change-point sequences: it keeps exactly the prefix whose lengths are <= 128 and stops pulling change points at the first longer one")
+    chk.rule("I2.weights", floor=2, doc="the weights, as expressions: one per consecutive pair of kept change points, 2^-len of the first times the distance to the second")
+    chk.expect("I1.cutoff", "get_implied_distribution", ok1, "utils::implied::get_implied_distribution: %s" % why1)
+    chk.expect("I1.cutoff", "bound", ok1, "utils::implied::get_implied_distribution: %s" % why1)
+    chk.expect("I2.weights", "pairs", ok2, "utils::implied::get_implied_distribution: %s" % why2)
+    chk.expect("I2.weights", "unmodified", ok1 and ok2, "utils::implied::get_implied_distribution: %s" % (why1 or why2))
+    return True
+
+
 def run_implied(chk, F):
+    if implied_semantic(chk, F):
+        run_sampler(chk, F)
+        return
+    run_implied_structural(chk, F)
+    run_sampler(chk, F)
+
+
+def run_implied_structural(chk, F):
     chk.rule("I1.cutoff", floor=2, doc="get_implied_distribution consumes the change-point iterator only through an adaptor that stops at the first item it rejects (take_while / map_while) and whose predicate bounds the length component by a constant: the set-up ends at the first length above the bound instead of walking every change point up to 2^64")
     chk.rule("I2.weights", floor=2, doc="the weight vector is exactly collect(map(windows(change_points, 2))): one weight per pair of consecutive change points (len = len(change_points) - 1), and neither returned vector is modified afterwards")
-    chk.rule("I3.sampler", floor=2, doc="the sampler indexes change_points with idx and idx + 1 only, idx drawn from the WeightedIndex built from those weights (idx < number of weights), so both indices are in range")
     b = F.body("utils::implied::get_implied_distribution")
     ps = [p for p in mir.walk(b) if p.end[0] == "return"]
     ok1 = ok2 = bool(ps)
@@ -224,6 +299,10 @@ def run_implied(chk, F):
     chk.expect("I1.cutoff", "bound", ok1, "utils::implied::get_implied_distribution: %s" % why1)
     chk.expect("I2.weights", "pairs", ok2, "utils::implied::get_implied_distribution: %s" % why2)
     chk.expect("I2.weights", "unmodified", ok2, "utils::implied::get_implied_distribution: %s" % why2)
+
+
+def run_sampler(chk, F):
+    chk.rule("I3.sampler", floor=2, doc="the sampler indexes change_points with idx and idx + 1 only, idx drawn from the WeightedIndex built from those weights (idx < number of weights), so both indices are in range")
     # I3
     b = F.body("utils::implied::sample_implied_distribution")
     ok3, why3 = True, None
